@@ -845,6 +845,7 @@ int main(int argc, char **argv)
 		return 2;
 	}
 #endif
+	g_trace = getenv("FORKH_TRACE") != NULL;
 	vp_user_hook = user_hook;
 	rq_exclude = app_is_tid;
 	snprintf(g_root_shp.phase, sizeof(g_root_shp.phase), "init");
